@@ -11,9 +11,9 @@ CHECKS = {
   note="Trusted: Coq kernel, the translator for token.rs, the Logos runtime rule as modelled in Lex/Logos.v (validated differentially), extraction (ExtrOcamlBasic/ExtrOcamlString), harness. No axioms.",
   technique="Coq proof over lexer model + regenerated token table + differential tie", design="DESIGN.md §4 C17"),
  "C16": dict(
-  text="Every iteration over a HashMap/HashSet in the five crates is regenerated from the source on each run and proved (vm_compute) equal to a hand-reviewed list in which each site carries the class of its consumer; for every order-free class a Coq theorem shows that all visiting orders of the same entries give the same observation (and that the first-error shape does not). The real compiler is compiled repeatedly in one process and in fresh processes on valid and multi-error inputs.",
-  note="Trusted: Coq kernel, the name-based site finder, the hand review of site classes (DocHashSites.v), the consumer models; other sources of nondeterminism (environment, addresses) are covered only by the repetitions. No axioms.",
-  technique="Coq permutation-invariance proofs per hash-iteration site + regenerated site table + repeated-compilation oracle", design="DESIGN.md §4 C16"),
+  text="Every iteration over a HashMap/HashSet in the five crates is regenerated from the source on each run and proved (vm_compute) equal to a hand-reviewed list in which each site carries the class of its consumer; for every order-free class a Coq theorem shows that all visiting orders of the same entries give the same observation (and that the first-error shape does not). Every hand-written PartialEq/Ord/Hash impl is regenerated likewise and proved equal to a reviewed list in which every hashable type hashes exactly the fields it compares; a Coq theorem over a bucket model of a hash map shows that membership and the parser's 'declared twice' verdict equal a hash-free specification for every hash function that respects key equality (and that they do not when the hash reads more than the equality). The real compiler is compiled repeatedly in one process and in fresh processes on valid and multi-error inputs, and hundreds of times on inputs whose verdict goes through a lookup of an equal-but-not-identical key.",
+  note="Trusted: Coq kernel, the name-based site finder, the hand reviews (DocHashSites.v site classes, DocKeyTypes.v fields read by each eq/hash), the consumer and bucket models; other sources of nondeterminism (environment, addresses) are covered only by the repetitions. No axioms.",
+  technique="Coq permutation-invariance proofs per hash-iteration site + hash/eq-contract theorem for hash-keyed lookups + regenerated site and key-type tables + repeated-compilation oracle", design="DESIGN.md §4 C16"),
  "C07": dict(
   text="The places where the compiler can panic by construction (unreachable!/panic!/assert!/unwrap/expect/remove(0)) are regenerated from the five crates on every run and proved (vm_compute) equal to a hand-reviewed table that records for each why it cannot fire on the compile path; Coq theorems give totality and progress of the tokenizer model for every input. The real compile() is run with panic capture, a watchdog and rendering of every returned error on mutated/truncated/spliced real programs, token soup, multi-error and multi-file projects, and mutants of generated well-typed programs.",
   note="Partial by nature: native stack exhaustion, allocation failure and wall-clock are runtime behaviour outside any model (nesting depth is bounded in the generators). The review of guarded sites is a hand argument, not a theorem; parser/resolver/type-checker totality is covered by the oracle (and by the other agents' models where they exist). No axioms.",
